@@ -15,7 +15,7 @@ func init() {
 		"(R2) the decision table of Update over {log known, candidate parses, tx opens, stored row read / NotFound, stored STH parses, size order, roots equal, proof verifies, store, sign}: setSTH executes exactly when the log is known, the candidate verified and either nothing is stored (trust on first use) or the candidate is strictly larger and the consistency proof verified; equal size ⇒ no write, error iff roots differ; smaller ⇒ error; the three outcomes of the read (row read / nothing stored / read failed) are told apart by the nil test of the read error or by its status code (OK, NotFound), and getLatestSTH answers NotFound only when the scan reported sql.ErrNoRows — every other failure of the read keeps a code that Update refuses, so a transient read failure is never taken for first use; "+
 		"(R3) VerifyConsistency gets (hasher, prev.TreeSize, next.TreeSize, proof, prev root, next root) in that order, the equal-size test compares the two roots, setSTH stores the very bytes that were parsed under the requested log ID through the transaction that read the previous STH; "+
 		"(R4) every return of Update is (nil, error) for hard refusals, (held raw STH, FailedPrecondition) for stale/inconsistent candidates, (held raw STH, nil) for an identical one and signSTH(candidate) only after a successful store; GetSTH returns signSTH(parse(stored bytes)); "+
-		"(R5) parse returns an STH only for a configured log, after the JSON decoded, the log ID is absent (then filled in) or equal to the requested one and the log's verifier w.Logs[logID] accepted the signature over that same STH; signSTH signs tls.Marshal(*sth) with the witness key (SHA-256) and embeds the same *sth; the witness verifier checks over tls.Marshal(sth.SignedTreeHead) and accepts only if some signature verified; "+
+		"(R5) a verified tree head for (raw bytes, log ID) is an STH decoded from those bytes (JSON), whose log ID is absent (then filled in) or equal to the requested one, whose log signature the verifier w.Logs[logID] accepted over that same STH, and which nothing writes afterwards; parse returns only such a tree head, for a configured log; Update binds exactly two (the candidate from the request bytes, the held one from the stored row) and GetSTH one, each as parse(w, bytes, logID) or with the three checks written out in place — the decision tables of R2 take the outcome of either shape, and for the written-out shape every single check (not JSON, log ID undecodable, another log, bad log signature) is a refusal class of its own: with that check failed no setSTH / signSTH executes on ANY path, first use included; signSTH signs tls.Marshal(*sth) with the witness key (SHA-256) and embeds the same *sth; the witness verifier checks over tls.Marshal(sth.SignedTreeHead) and accepts only if some signature verified; "+
 		"(R6) HTTP update: FailedPrecondition ⇒ non-200 status and the held STH as body, other errors ⇒ error page without the body, success ⇒ body; getSTH writes nothing on error; "+
 		"(R7) the log map pairs LogID = base64(SHA-256(DER of PubKey)) with the verifier built from that same PubKey, and that map becomes w.Logs. "+
 		"NOT covered: transaction isolation under concurrent Updates (SQLite / database/sql semantics; Main's SetMaxOpenConns(1) is not checked), the proof verifier and signature primitives themselves, JSON/TLS encodings, that the bytes in the table were put there by this code.",
